@@ -135,6 +135,29 @@ func (c *gctx) collectDefs(guard *ast.IfStmt) {
 			}
 		}
 	})
+	// the guard's own init statement (`if x := …; cond`) and package-level constants
+	if a, ok := guard.Init.(*ast.AssignStmt); ok && len(a.Lhs) == len(a.Rhs) {
+		for i, l := range a.Lhs {
+			if id, ok := l.(*ast.Ident); ok {
+				best[id.Name] = def{a.Pos(), a.Rhs[i]}
+			}
+		}
+	}
+	if c.file != nil {
+		for _, d := range c.file.Decls {
+			if g, ok := d.(*ast.GenDecl); ok && g.Tok == token.CONST {
+				for _, sp := range g.Specs {
+					if v, ok := sp.(*ast.ValueSpec); ok && len(v.Names) == len(v.Values) {
+						for i, n := range v.Names {
+							if best[n.Name].e == nil {
+								best[n.Name] = def{0, v.Values[i]}
+							}
+						}
+					}
+				}
+			}
+		}
+	}
 	for k, v := range best {
 		c.defs[k] = v.e
 	}
@@ -215,6 +238,50 @@ func (c *gctx) term(e ast.Expr, spec guardSpec, depth int) (string, bool) {
 				return role("head")
 			}
 		}
+		// a same-file helper that computes the value: follow it one level (its last `return <non-nil>, …`)
+		if depth < 6 {
+			name := ""
+			switch f := x.Fun.(type) {
+			case *ast.Ident:
+				name = f.Name
+			case *ast.SelectorExpr:
+				if id, ok := f.X.(*ast.Ident); ok && id.Name == c.recv && c.recv != "" {
+					name = f.Sel.Name
+				}
+			}
+			if name != "" && c.file != nil {
+				for _, d := range c.file.Decls {
+					h, ok := d.(*ast.FuncDecl)
+					if !ok || h.Name.Name != name || h.Body == nil || h == c.fd {
+						continue
+					}
+					var ret *ast.ReturnStmt
+					Walk(h.Body, func(n ast.Node) bool {
+						if r, ok := n.(*ast.ReturnStmt); ok && len(r.Results) >= 1 && Src(r.Results[0]) != "nil" {
+							ret = r
+						}
+						return true
+					})
+					if ret == nil {
+						continue
+					}
+					hc := newGctx(c.file, h)
+					hc.parent = c
+					hc.subst = map[string]ast.Expr{}
+					i := 0
+					for _, p := range h.Type.Params.List {
+						for _, pn := range p.Names {
+							if i < len(x.Args) {
+								hc.subst[pn.Name] = x.Args[i]
+							}
+							i++
+						}
+					}
+					hc.collectDefsAt(ret.Pos())
+					return hc.term(ret.Results[0], spec, depth+6)
+				}
+			}
+		}
 	}
 	return "0", false
 }
@@ -247,6 +314,15 @@ func cmpSet(op token.Token, lit int, litLeft bool) (lt, eq, gt bool, ok bool) {
 		return sat(-1), sat(0), sat(1), true
 	}
 	return false, false, false, false
+}
+
+func (c *gctx) intLit(e ast.Expr) (int, bool) {
+	if id, ok := e.(*ast.Ident); ok {
+		if d, ok := c.defs[id.Name]; ok {
+			return intLit(d)
+		}
+	}
+	return intLit(e)
 }
 
 func intLit(e ast.Expr) (int, bool) {
@@ -314,11 +390,11 @@ func (c *gctx) cond(e ast.Expr, spec guardSpec) (string, bool) {
 		var lit int
 		litLeft := false
 		if cc, ok := cmpCall(x.X); ok {
-			if v, ok := intLit(x.Y); ok {
+			if v, ok := c.intLit(x.Y); ok {
 				call, lit = cc, v
 			}
 		} else if cc, ok := cmpCall(x.Y); ok {
-			if v, ok := intLit(x.X); ok {
+			if v, ok := c.intLit(x.X); ok {
 				call, lit, litLeft = cc, v, true
 			}
 		}
@@ -347,6 +423,19 @@ func (c *gctx) cond(e ast.Expr, spec guardSpec) (string, bool) {
 		return "(" + strings.Join(parts, " || ") + ")", ok1 && ok2
 	}
 	return "false", false
+}
+
+func hasCmpNode(n ast.Node) bool {
+	found := false
+	Walk(n, func(m ast.Node) bool {
+		if c, ok := m.(*ast.CallExpr); ok {
+			if _, ok := cmpCall(c); ok {
+				found = true
+			}
+		}
+		return true
+	})
+	return found
 }
 
 func hasCmp(e ast.Expr) bool {
@@ -495,7 +584,10 @@ func (c *gctx) rejectHere(spec guardSpec) (string, string, bool) {
 	found := false
 	Walk(c.fd.Body, func(n ast.Node) bool {
 		s, ok := n.(*ast.IfStmt)
-		if !ok || found || !hasCmp(s.Cond) {
+		if !ok || found {
+			return true
+		}
+		if !hasCmp(s.Cond) && !(s.Init != nil && hasCmpNode(s.Init)) {
 			return true
 		}
 		c.collectDefs(s)
